@@ -239,18 +239,22 @@ pub fn run_par(a: &Args) {
     let resize = a.extra.iter().any(|x| x == "--resize");     // thread counts different from the construction-time count
     let cutoff = a.extra.iter().any(|x| x == "--cutoff");
     let long_arcs = a.extra.iter().any(|x| x == "--long-arcs");
+    let focus_cache = a.extra.iter().any(|x| x == "--focus-cache");
+    let focus_dom = a.extra.iter().any(|x| x == "--focus-dominance");
     let mut rng = Rng::new(a.seed);
     let ninst = if a.thorough { 3000 } else { 250 };
     let mut bad = 0;
     for _ in 0..ninst {
-        let fam = if rng.chance(1, 5) && !long_arcs { Fam::Knap(Knap::random(&mut rng)) } else { Fam::Table(TableDP::random(&mut rng, long_arcs)) };
+        let fam = crate::eng_seq::pick_fam(&mut rng, long_arcs, focus_cache, focus_dom);
         let kinds: Vec<usize> = if long_arcs { vec![2] } else { vec![0, 1, 2] };
         let mut s = random_cfg(&fam, &mut rng, &kinds);
+        if focus_cache { s.cache = true; s.w = WE::F(*rng.pick(&[1usize, 1, 2])); }
+        if focus_dom { s.w = WE::F(*rng.pick(&[1usize, 2, 2])); }
         if rng.chance(1, 6) { if let Some(p) = random_solution(&fam, &mut rng) { s.primal = Some(p); } }
         if cutoff { s.stop_at = Some(rng.range(1, 14) as usize); }
         let threads = *rng.pick(&[1usize, 2, 2, 2, 3, 3, 4]);
         let built_with = if resize { *rng.pick(&[1usize, 2, 4, 8]) } else { threads };
-        let cfg = PCfg { s, threads, built_with, policy: rng.next() >> 1, choices: None, cache_yield: rng.chance(1, 3) };
+        let cfg = PCfg { s, threads, built_with, policy: rng.next() >> 1, choices: None, cache_yield: if focus_cache { rng.chance(2, 3) } else { rng.chance(1, 3) } };
         let pr = run_scheduled(&fam, &cfg);
         let mut tags = vec![format!("threads{}", threads), ["lel", "frontier", "pooled"][cfg.s.kind].to_string(), if cfg.s.cache { "cache".into() } else { "nocache".into() }];
         if pr.tape.iter().any(|e| e.ends_with(" WAIT")) { tags.push("wait".into()); }
